@@ -28,8 +28,11 @@ CLAIM = dict(
     "coord_opposite, coord_step (orientation table regenerated from the running interpret_indexing and proved to be a permutation "
     "and the documented one), voxel_of_inside (every point with offset in [0,1) of a voxel converts back to it), center_roundtrip, "
     "batch_roundtrip (lists of any length), typed_roundtrip / constructors_idempotent for the typed points, default_origin_box, "
-    "center_stable (float bridge: quotient error < 1/2 voxel cannot change a centre's index). Tie: generated axis table + "
-    "differential correspondence model vs implementation, exact on dyadic geometries, index-exact with measured float error "
+    "center_stable (float bridge: quotient error < 1/2 voxel cannot change a centre's index). Remaining public surface (round 2): coordinate_vector_linear, "
+    "num_voxels_length (num_voxels(length(n)) = n; num_voxels(L) voxels cover L with < 1 voxel to spare), ceil_bridge, min_max_coordinate + voxel_in_domain (bounding box, "
+    "reversed axes), matrix_indexing_false_involutive, check_equal_refl, check_equal_symm_of_symm, npclose_not_symmetric (witness: numpy's isclose is not symmetric). Tie: generated axis table + "
+    "differential correspondence model vs implementation (coordinate, voxel, opposite_corner, voxel_size, default origin, typed points, coordinate_vector, length, num_voxels, "
+    "min/max_coordinate, Image.domain, voxels/coordinates, make_* incl. matrix_indexing=False and batch assertions, check_equal_coordinatesystems incl. error classes), exact on dyadic geometries, index-exact with measured float error "
     "(recorded, must stay < 2^-20 voxel) on general geometries with origins up to 1e6 voxel sizes away.",
     note="float arithmetic itself is not modelled: the general stream compares voxel indices at centres and at offsets >= 2^-10 voxel from "
     "a face and records the measured error of the implementation's quotient; numpy IEEE semantics trusted; Voxel(matrix_indexing=False) not covered.",
@@ -238,6 +241,20 @@ def check_case(d, case):
             return False, repr(got), [float(x) for x in np.ravel(req)]
         ok = np.asarray(got).shape == np.asarray(req).shape and bool(np.array_equal(np.asarray(got), req))
         return ok, [float(x) for x in np.ravel(np.asarray(got))], [float(x) for x in np.ravel(req)]
+    if clause == "surface":
+        class _C:  # collect failures of the surface oracle for this geometry
+            def __init__(self):
+                import random
+                self.rng, self.f = random.Random(0), []
+            def count(self, *a, **k):
+                pass
+            def fail(self, sig, what, rep):
+                self.f.append((sig, what))
+        c = _C()
+        st = {}
+        for _ in range(20):
+            oracle_surface(c, d, g, case.get("payload", "scalar"), img, cs, origin, st)
+        return (not c.f), [x[1][:200] for x in c.f[:3]], "no failure of the coordinate-system surface clauses"
     raise ValueError(clause)
 
 
@@ -251,6 +268,99 @@ def fail_case(ctx, d, case, sig, what):
 TYPED_PATHS = ("Voxel.to_voxel_center", "VoxelCenter.to_voxel", "make_voxel_center(centres)", "make_voxel(centres)",
                "VoxelCenter.to_coordinate", "VoxelCenter.to_coordinate.to_voxel", "VoxelCenter.to_coordinate.to_voxel_center",
                "Coordinate.to_voxel")
+
+
+def oracle_surface(ctx, d, g, payload, img, cs, origin, stats):
+    """The remaining public surface, as properties of the implementation (consequences of the affine map)."""
+    rng = ctx.rng
+    dim, shape = g["dim"], g["shape"]
+    dy = g["dyadic"]
+    base = dict(geometry=g, payload=payload, clause="surface")
+    scale = [abs(frac(origin[i])) + frac(g["dims"][AXMAP[dim][i][0]]) * 8 for i in range(dim)]
+
+    def close(a, b, i):
+        return frac(float(a)) == frac(float(b)) if dy else abs(frac(float(a)) - frac(float(b))) <= 16 * EPS * scale[i]
+
+    # coordinate_vector is the linear part of coordinate
+    v = np.array([rng.randint(-2, n + 2) for n in shape], dtype=float)
+    w = np.array([rng.randint(-12, 12) / 4 for _ in shape])
+    cv = call(cs.coordinate_vector, w)
+    c1, c0 = call(cs.coordinate, v + w), call(cs.coordinate, v)
+    ctx.count(("surface", "coordinate_vector", json.dumps(g)))
+    if isinstance(cv, Raised) or isinstance(c1, Raised) or isinstance(c0, Raised) or not all(
+            close(np.asarray(cv)[i], float(frac(float(np.asarray(c1)[i])) - frac(float(np.asarray(c0)[i]))), i) for i in range(dim)):
+        ctx.fail(f"C01:coordinate_vector!=coordinate-difference:dim={dim}", f"coordinate_vector({w.tolist()}) = {cv!r} but coordinate(v+w) - coordinate(v) = {np.asarray(c1) - np.asarray(c0)} at v={v.tolist()}",
+                 {**base, "voxel": v.tolist(), "vector": w.tolist()})
+    # num_voxels(length(n)) = n and the bounding box
+    for i, axis in enumerate("xyz"[:dim]):
+        n = rng.randint(0, 9)
+        L = call(cs.length, n, axis)
+        back = L if isinstance(L, Raised) else call(cs.num_voxels, L, axis)
+        ctx.count(("surface", "length-num_voxels", json.dumps(g), axis))
+        if isinstance(back, Raised) or int(back) != n:
+            if dy or isinstance(back, Raised):
+                ctx.fail(f"C01:num_voxels(length(n))!=n:dim={dim}", f"axis {axis}: length({n}) = {L!r}, num_voxels of it = {back!r}", {**base, "axis": axis, "n": n})
+            else:
+                stats["num_voxels_float_off_by_one"] = stats.get("num_voxels_float_off_by_one", 0) + 1
+        elif not dy:
+            stats["num_voxels_float_exact"] = stats.get("num_voxels_float_exact", 0) + 1
+        # a length strictly between n and n+1 voxels touches n+1 voxels
+        p_ = AXMAP[dim][i][0]
+        fr = rng.choice([0.25, 0.5, 0.75])
+        Lf = (n + fr) * (g["dims"][p_] / shape[p_])
+        k = call(cs.num_voxels, Lf, axis)
+        if isinstance(k, Raised) or int(k) != n + 1:
+            ctx.fail(f"C01:num_voxels(length between n and n+1)!=n+1:dim={dim}", f"axis {axis}: num_voxels({Lf!r}) = {k!r} for a length of {n + fr} voxels", {**base, "axis": axis, "n": n})
+    mn, mx = call(lambda: cs.min_coordinate), call(lambda: cs.max_coordinate)
+    ctx.count(("surface", "min-max", json.dumps(g)))
+    if isinstance(mn, Raised) or isinstance(mx, Raised):
+        ctx.fail(f"C01:min_coordinate:raises", f"{mn!r} {mx!r}", base)
+    else:
+        mn, mx = np.asarray(mn), np.asarray(mx)
+        dom = cs.domain
+        for i, axis in enumerate("xyz"[:dim]):
+            p = AXMAP[dim][i][0]
+            if not close(mx[i] - mn[i] if not dy else float(frac(float(mx[i])) - frac(float(mn[i]))), g["dims"][p], i):
+                ctx.fail(f"C01:max_coordinate-min_coordinate!=dimensions:dim={dim}", f"axis {axis}: max - min = {mx[i] - mn[i]!r}, physical dimension {g['dims'][p]!r}", {**base, "axis": axis})
+            if dom[axis + "min"] != mn[i] or dom[axis + "max"] != mx[i]:
+                ctx.fail(f"C01:domain!=min/max_coordinate", f"domain {dom} vs min {mn.tolist()} max {mx.tolist()}", base)
+        corners = np.array([[rng.choice([0, n, rng.randint(0, n)]) for n in shape] for _ in range(4)], dtype=float)
+        cc = call(cs.coordinate, corners)
+        if not isinstance(cc, Raised):
+            cc = np.asarray(cc)
+            for row, vrow in zip(cc, corners):
+                for i in range(dim):
+                    t = 0 if dy else 16 * EPS * scale[i]
+                    if frac(float(row[i])) < frac(float(mn[i])) - t or frac(float(row[i])) > frac(float(mx[i])) + t:
+                        ctx.fail(f"C01:voxel-of-image-outside-[min,max]_coordinate:dim={dim}", f"voxel position {vrow.tolist()} has coordinate {row.tolist()} outside [{mn.tolist()}, {mx.tolist()}]", {**base, "voxel": vrow.tolist()})
+    # check_equal_coordinatesystems is reflexive (same object and an independently built equal image)
+    img2 = make_image(d, g, payload)
+    for other in (cs, None if isinstance(img2, Raised) else img2.coordinatesystem):
+        if other is None:
+            continue
+        for ex in (False, True):
+            r = call(d.check_equal_coordinatesystems, cs, other, ex)
+            ctx.count(("surface", "check_equal-refl", json.dumps(g), ex, other is cs))
+            if isinstance(r, Raised) or r[0] is not True or list(r[1]) != []:
+                ctx.fail(f"C01:check_equal_coordinatesystems:not-reflexive", f"check_equal_coordinatesystems(cs, equal cs, exclude_size={ex}) = {r!r}", {**base, "exclude_size": ex})
+    # ... and detects a clear difference in dimensions / shape / origin, naming the field, in both argument orders
+    for mode, field in (("dims", "dimensions"), ("shape", "shape"), ("origin", "coordinate_of_origin_voxel")):
+        g2 = variant_geometry(rng, g, mode)
+        img3 = None if g2 is None else make_image(d, g2, "scalar")
+        if img3 is None or isinstance(img3, Raised):
+            continue
+        for a_, b_ in ((cs, img3.coordinatesystem), (img3.coordinatesystem, cs)):
+            r = call(d.check_equal_coordinatesystems, a_, b_, False)
+            ctx.count(("surface", "check_equal-diff", json.dumps(g), mode))
+            if isinstance(r, Raised) or r[0] is not False or field not in r[1]:
+                ctx.fail(f"C01:check_equal_coordinatesystems:misses-{field}", f"coordinate systems differing in {mode} (geometry {g2}): check_equal_coordinatesystems = {r!r}", {**base, "other": g2})
+    # Voxel(matrix_indexing=False) reverses the component order; twice is the identity
+    raw = np.array([rng.randint(-40, 40) / 8 for _ in range(dim)])
+    once = call(d.make_voxel, raw, matrix_indexing=False)
+    twice = once if isinstance(once, Raised) else call(d.make_voxel, np.asarray(once), matrix_indexing=False)
+    ctx.count(("surface", "matrix_indexing=False", json.dumps(g)))
+    if isinstance(twice, Raised) or not np.array_equal(np.asarray(once), np.floor(raw)[::-1].astype(int)) or not np.array_equal(np.asarray(twice), np.floor(raw).astype(int)):
+        ctx.fail(f"C01:Voxel(matrix_indexing=False):dim={dim}", f"make_voxel({raw.tolist()}, matrix_indexing=False) = {once!r}, applied twice {twice!r}", {**base, "raw": raw.tolist()})
 
 
 def oracle_geometry(ctx, d, g, payload, halo, stats):
@@ -334,6 +444,7 @@ def oracle_geometry(ctx, d, g, payload, halo, stats):
                     if isinstance(single, Raised) or not np.array_equal(np.asarray(single), np.asarray(c)[idx]):
                         ctx.fail(f"C01:batch!=single:coordinate:dim={dim}", "coordinate() of a batch row differs from the single-point call",
                                  {**case, "observed": repr(single), "required": [float(x) for x in np.asarray(c)[idx]]})
+    oracle_surface(ctx, d, g, payload, img, cs, origin, stats)
     # typed points: a negative, an inside and a beyond voxel, single and batch
     picks = {}
     for row in vox:
@@ -372,6 +483,91 @@ def pts_tokens(rows):
 
 def show_rows(rows, f=fmts):
     return " ; ".join(f(r) for r in rows)
+
+
+def int_rows(rows):
+    return " ; ".join(" ".join(str(int(x)) for x in r) for r in rows)
+
+
+def variant_geometry(rng, g, mode):
+    """A second geometry for check_equal_coordinatesystems: equal, or differing clearly (far from the allclose band) in one field."""
+    h = dict(g, shape=list(g["shape"]), dims=list(g["dims"]))
+    k = rng.randrange(g["dim"])
+    if mode == "dims":
+        h["dims"][k] = g["dims"][k] * 2
+    elif mode == "shape":
+        h["shape"][k] = g["shape"][k] + 1
+    elif mode == "origin":
+        # a shift well outside numpy's relative tolerance (1e-5) also for origins 1e6 voxel sizes away
+        h["origin"] = [x + ((1.0 + abs(x) / 64) if i == k else 0.0) for i, x in enumerate(g["origin"] if g["origin"] is not None else [0.0] * g["dim"])]
+        if g["origin"] is None:  # keep the default of the reversed axes and shift one component
+            return None
+    elif mode == "dim":
+        nd = rng.choice([x for x in (1, 2, 3) if x != g["dim"]])
+        h = dict(dim=nd, shape=[2] * nd, dims=[1.0] * nd, origin=None, dyadic=True, regime="dy-default")
+    return h
+
+
+def surface_lines(ctx, d, g, img, cs, tok, origin, lines, impl):
+    """Correspondence for the remaining public surface (dyadic geometries: exact)."""
+    rng = ctx.rng
+    dim, shape = g["dim"], g["shape"]
+
+    def show(r, f):
+        return repr(r) if isinstance(r, Raised) else f(r)
+
+    w = [rng.randint(-24, 24) / 4 for _ in range(dim)]
+    lines.append(f"cvec {tok} {flist(w)}")
+    impl.append(show(call(cs.coordinate_vector, np.array(w)), lambda r: fmts(np.asarray(r))))
+    for i, axis in enumerate("xyz"):
+        if i > dim:
+            break
+        p = AXMAP[dim][i][0] if i < dim else 0
+        hp = frac(g["dims"][p]) / shape[p]
+        num = rng.randint(-3, 9)
+        lines.append(f"length {tok} {num} {i}")
+        impl.append(show(call(cs.length, num, axis), lambda r: fmts([r])))
+        ln = float(hp * Fraction(rng.randint(0, 40), 4))
+        lines.append(f"numvoxax {tok} {fmts([ln])} {i}")
+        impl.append(show(call(cs.num_voxels, ln, axis), lambda r: str(int(r))))
+    lines.append(f"mincoord {tok}")
+    impl.append(show(call(lambda: cs.min_coordinate), lambda r: fmts(np.asarray(r))))
+    lines.append(f"maxcoord {tok}")
+    impl.append(show(call(lambda: cs.max_coordinate), lambda r: fmts(np.asarray(r))))
+    lines.append(f"imgdomain {tok}")
+    impl.append(show(call(lambda: img.domain), lambda r: fmts(list(r))))
+    if int(np.prod(shape)) <= 64:
+        lines.append(f"voxels {tok}")
+        impl.append(show(call(lambda: cs.voxels), lambda r: int_rows(np.asarray(r))))
+        lines.append(f"coords {tok}")
+        impl.append(show(call(lambda: cs.coordinates), lambda r: show_rows(np.asarray(r))))
+    raw = [rng.randint(-40, 40) / 8 for _ in range(dim)]
+    lines.append(f"mkrev vox {flist(raw)}")
+    impl.append(show(call(d.make_voxel, np.array(raw), matrix_indexing=False), lambda r: " ".join(str(int(x)) for x in np.asarray(r))))
+    lines.append(f"mkrev ctr {flist(raw)}")
+    impl.append(show(call(d.make_voxel_center, np.array(raw), matrix_indexing=False), lambda r: fmts(np.asarray(r))))
+    width = rng.choice([dim, dim, 1, 2, 3, 4])
+    pts = [[rng.randint(-40, 40) / 8 for _ in range(width)] for _ in range(rng.randint(1, 3))]
+    for mi in (True, False):
+        lines.append(f"mkb vox {int(mi)} {pts_tokens(pts)}")
+        impl.append(show(call(d.make_voxel, np.array(pts), matrix_indexing=mi), lambda r: int_rows(np.asarray(r))))
+        lines.append(f"mkb ctr {int(mi)} {pts_tokens(pts)}")
+        impl.append(show(call(d.make_voxel_center, np.array(pts), matrix_indexing=mi), lambda r: show_rows(np.asarray(r))))
+    lines.append(f"mkb coord 1 {pts_tokens(pts)}")
+    impl.append(show(call(d.make_coordinate, np.array(pts)), lambda r: show_rows(np.asarray(r))))
+    for mode in ("same", "dims", "shape", "origin", "dim"):
+        g2 = variant_geometry(rng, g, mode)
+        if g2 is None:
+            continue
+        img2 = make_image(d, g2, "scalar")
+        if isinstance(img2, Raised):
+            continue
+        o2 = [float(x) for x in np.asarray(img2.origin)]
+        for ex in (False, True):
+            for (ga, ia, oa, gb, ib, ob) in ((g, img, origin, g2, img2, o2), (g2, img2, o2, g, img, origin)):
+                r = call(d.check_equal_coordinatesystems, ia.coordinatesystem, ib.coordinatesystem, ex)
+                lines.append(f"cseq {cs_tokens(ga, oa)} {cs_tokens(gb, ob)} {int(ex)}")
+                impl.append(show(r, lambda r: f"{int(bool(r[0]))} | " + " ".join(r[1])))
 
 
 def correspondence(ctx, d, geoms, halo, stats):
@@ -430,6 +626,7 @@ def correspondence(ctx, d, geoms, halo, stats):
                 r = call(fn, np.array(raw))
                 lines.append(f"mk {k} {flist(raw)}")
                 impl.append(repr(r) if isinstance(r, Raised) else fmts(np.asarray(r)))
+            surface_lines(ctx, d, g, img, cs, tok, origin, lines, impl)
         else:
             # general stream: the model evaluates the exact rational coordinates; measured, not diffed
             gen_lines.append(f"coord {tok} {pts_tokens(pts)}")
@@ -518,9 +715,12 @@ def run(ctx):
     ctx.cov["geometries"] = len(geoms)
     ctx.cov["distribution"] = dist
     ctx.cov["measured_float_error_voxel_units"] = stats
-    if max(stats.values()) >= 2.0 ** -20:
+    if max(stats["max_err_voxels"], stats["max_err_voxels_model"]) >= 2.0 ** -20:
         ctx.mark("TIE-BROKEN", {"float_error_voxels": stats, "bound": 2.0 ** -20,
                                 "meaning": "the float error of coordinate() exceeds the bound under which the general stream's offsets are safely inside a voxel"})
+    ctx.notes.append("num_voxels(length(n, axis), axis) on general (non-dyadic) floats returns n+1 instead of n in a few percent of the geometries "
+                     "(counters num_voxels_float_*): ceil of the float quotient n*h/h = n(1+eps). Exact in the rational model (num_voxels_length); "
+                     "recorded, not part of the property's statement.")
     ctx.cov["exhaustive"] = bool(ctx.big)
     ctx.cov["rule"] = ("thorough: every shape <= 6 per axis in 1-3-D x 7 dimension/origin regimes + 300 random larger shapes, every voxel + halo 2; "
                        "quick: 399 random geometries; distinct = (clause, geometry, payload, offset class, call form)")
